@@ -51,7 +51,11 @@ def hostile_name(rng: random.Random) -> str:
                            '\uff0e\uff0e/bob', '\u2025', '\u2024',
                            '\u2025/\u2025/base/bob', '\u2025\uff0fbob',
                            '\uff29\uff2e\uff22\uff2f\uff38/',
-                           '\u2025/pymap-etc-passwd'])
+                           '\u2025/pymap-etc-passwd',
+                           # a sibling store whose name extends the user's
+                           '../alice2', '../alice2/Secret', '../alice2/x',
+                           'a/../../alice2/y', '../alice2/.Secret',
+                           '\u2025/alice2/Secret', '../alice2/INBOX'])
     if r < 0.85:
         return 'x' * rng.choice([255, 256, 300, 1000, 5000])
     return gen.tidy_name(rng)
@@ -102,6 +106,17 @@ async def prepare_b(env: Any) -> None:
             b'X-VF-ID: bob-%d\r\nSubject: secret\r\n\r\nbob body\r\n' % k))
     await c.simple(b'APPEND INBOX ' + lit(
         b'X-VF-ID: bob-i\r\nSubject: s\r\n\r\nbody\r\n'))
+    await c.simple(b'LOGOUT')
+    # a third user whose directory name merely *begins* with the attacker's:
+    # a containment test on strings instead of path components lets
+    # ../alice2 pass
+    c = Conn(52, Sched())
+    c.start(env.imap)
+    await c.greeting()
+    await c.simple(b'LOGIN alice2 pw2')
+    await c.simple(b'CREATE Secret')
+    await c.simple(b'APPEND Secret ' + lit(
+        b'X-VF-ID: alice2-0\r\nSubject: secret\r\n\r\nbody\r\n'))
     await c.simple(b'LOGOUT')
 
 
@@ -179,7 +194,8 @@ def judge_events(ctx: Ctx, events: list[fsmon.Event], cmd: bytes,
 async def run_c08(spec: dict[str, Any], ctx: Ctx) -> None:
     rng = random.Random(spec['seed'])
     backend = spec['backend']
-    env = await make_env(backend, {'alice': 'pwa', 'bob': 'pwb'})
+    env = await make_env(backend, {'alice': 'pwa', 'bob': 'pwb',
+                                   'alice2': 'pw2'})
     try:
         await prepare_b(env)
         maildir = env.kind == 'maildir'
